@@ -23,7 +23,7 @@ VHARNESS = os.path.join(HTARGET, "debug", "vharness")
 TOOLS = os.path.join(TARGET, "tools")
 SCRATCH_ROOT = os.path.join(VERIF, ".scratch")
 BASH = "/usr/bin/bash"
-TOOL_NAMES = ["argdump", "gen", "sink", "filt", "envdump", "fdprobe", "fdcount", "msleep", "logline", "wr", "dumpf"]
+TOOL_NAMES = ["argdump", "gen", "sink", "filt", "envdump", "fdprobe", "fdcount", "msleep", "logline", "wr", "dumpf", "slog"]
 NCPU = os.cpu_count() or 4
 
 BRUSH_ARGS = ["--norc", "--noprofile", "--no-config", "--disable-bracketed-paste", "--disable-color"]
